@@ -25,6 +25,21 @@ pub fn generate(r: &mut Prng, seed: u64, run: u64, thorough: bool) -> Scenario {
         4..=7 => "truncate",
         _ => "disk",
     };
+    if r.chance(1, 160) {
+        // more than 65 535 term records in one file, in each format version
+        let n = r.urange(65_536, 65_800);
+        let facts = crate::facts::many_terms_facts(r, n, true);
+        let mut replicas = vec![];
+        for p in [PathKind::BinV1, PathKind::BinV2, PathKind::BinV3] {
+            let mut sp = ReplicaSpec::draw(r, p);
+            if sp.hash.0 == 3 {
+                sp.hash.0 = 0;
+            }
+            sp.via_file = false;
+            replicas.push(sp);
+        }
+        return Scenario { prop: P.into(), seed, run, mode: "layout".into(), facts, replicas, aux_seed: r.next_u64(), ..Default::default() };
+    }
     if r.chance(1, 30) {
         // the binary files shipped with the repository (thorough: sometimes the full ontology)
         let big = thorough && r.chance(1, 40);
